@@ -106,7 +106,10 @@ func (c *allOfConstraintCompiler) extendWith(node schema.Node, name string) {
 		fromAdditionalProperties := fromAdditionalProperties.(*constraint.AdditionalProperties)                                          //nolint:errcheck // We're sure about this type.
 		if toAdditionalProperties := toObject.Constraint(constraint.AdditionalPropertiesConstraintType); toAdditionalProperties != nil { //nolint:lll
 			toAdditionalProperties := toAdditionalProperties.(*constraint.AdditionalProperties) //nolint:errcheck // We're sure about this type.
-			if !fromAdditionalProperties.IsEqual(*toAdditionalProperties) {
+			// The mode is compared as well, because "any" and "not allowed" have
+			// neither a schema type nor a type name to differ by.
+			if fromAdditionalProperties.Mode() != toAdditionalProperties.Mode() ||
+				!fromAdditionalProperties.IsEqual(*toAdditionalProperties) {
 				panic(errors.ErrConflictAdditionalProperties)
 			}
 		} else {
